@@ -395,6 +395,26 @@ def config_cases(role):
     return dflt, out
 
 
+def config_diff(case, res):
+    """(option, configured, effective) for every option of a configuration-plumbing run that is not what the calls say"""
+    want = dict(CONFIG_DEFAULT["common"], **CONFIG_DEFAULT[case["role"]])
+    for kw in case["config_calls"]:
+        want.update(kw)
+    return want, [(k, want[k], res["options"].get(k)) for k in want if res["options"].get(k) != want[k]]
+
+
+def replay_config(ck, fw, case):
+    res = run_cases(ck, fw, [case])[0]
+    want, diff = config_diff(case, res)
+    print("setProtocolOptions calls:", json.dumps(case["config_calls"]), "on the", case["role"], "factory")
+    print("protocol after handshake:", json.dumps(res["options"]))
+    bad = [d for d in diff if d[0] in MODEL_OPTIONS]
+    for k, w, g in diff:
+        print(f"  {k}: configured {w!r}, effective {g!r}" + ("" if k in MODEL_OPTIONS else "   (not an option of C02/C16)"))
+    print("verdict:", "differs" if bad else "as configured")
+    return 1 if bad else 0
+
+
 def config_plumbing(ck, fw):
     plan = {role: config_cases(role) for role in ("server", "client")}
     allc = [dict(role=role, config_calls=calls) for role in plan for _, calls in plan[role][1]]
@@ -406,14 +426,10 @@ def config_plumbing(ck, fw):
         allc, allr = allc[len(seqs):], allr[len(seqs):]
         reported = set()
         for (label, calls), c, r in zip(seqs, cases, res):
-            want = dict(dflt)
-            for kw in calls:
-                want.update(kw)
+            want, diff = config_diff(c, r)
             got = r["options"]
             ck.bump("config_sequences")
-            for k in want:
-                if got.get(k) == want[k]:
-                    continue
+            for k, _, _ in diff:
                 if k not in MODEL_OPTIONS:
                     ck.bump(f"config_other_option_differs:{role}/{k}")
                     continue
@@ -657,6 +673,8 @@ def replay(path):
     fw = r.get("fw", "tx")
     fw, nvx = fw.split("/")[0], fw.endswith("/nvx")
     print("framework     :", fw, "(native NVX validator/masker)" if nvx else "(pure Python validator/masker)")
+    if "config_calls" in case:
+        return replay_config(ck, fw, case)
     res = run_cases(ck, fw, [case], nvx=nvx)[0]
     print("case          :", json.dumps(case))
     print("implementation:", json.dumps(res))
